@@ -480,6 +480,7 @@ class C06(Check):
     level_note = ''
     rule = ''
     assumptions = []
+    per_case_timeout = 2
 
     def __init__(self):
         super().__init__()
